@@ -11,6 +11,7 @@ import (
 	"regexp"
 	"strconv"
 	"strings"
+	"sync/atomic"
 	"time"
 )
 
@@ -39,6 +40,28 @@ type Solver struct {
 	Errors  []string
 	timeout int // ms
 	seq     int
+	Gen     int // incremented by Restart
+	rec     strings.Builder
+
+	Fallbacks     int // queries handed to the cvc5 integer-encoding fallback
+	FallbackUnsat int
+	FallbackTime  time.Duration
+}
+
+// Restart replaces the solver process (after a timeout z3 4.8.12 stays in a
+// "canceled" state and rejects the following commands).
+func (s *Solver) Restart() error {
+	if s.cmd != nil {
+		s.cmd.Process.Kill()
+		s.cmd.Wait()
+	}
+	n, err := NewSolver(s.name, s.timeout, s.log)
+	if err != nil {
+		return err
+	}
+	s.cmd, s.in, s.bw, s.out = n.cmd, n.in, n.bw, n.out
+	s.Gen++
+	return nil
 }
 
 func NewSolver(kind string, timeoutMs int, logw io.Writer) (*Solver, error) {
@@ -78,7 +101,129 @@ func (s *Solver) send(text string) {
 	if s.log != nil {
 		io.WriteString(s.log, text)
 	}
+	s.rec.WriteString(text)
 	s.bw.WriteString(text)
+}
+
+// context returns the recorded transcript of the current path without the
+// query/echo commands (a replayable assertion context).
+func (s *Solver) context() string {
+	var sb strings.Builder
+	for _, l := range strings.Split(s.rec.String(), "\n") {
+		if l == "" || strings.HasPrefix(l, "(echo") || strings.HasPrefix(l, "(get-value") || strings.HasPrefix(l, "(check-sat") || strings.HasPrefix(l, "(set-option") {
+			continue
+		}
+		sb.WriteString(l)
+		sb.WriteByte('\n')
+	}
+	return sb.String()
+}
+
+// Fallback decides the pending query (the transcript's current context) with
+// cvc5 in integer-encoding mode, which handles the adder/comparison-heavy
+// queries on which bit-blasting times out.  One-shot process.
+func (s *Solver) Fallback(names []string, timeoutMs int) (SatResult, Model) {
+	t0 := time.Now()
+	defer func() { s.FallbackTime += time.Since(t0); s.Fallbacks++ }()
+	script := "(set-logic QF_BV)\n(set-option :produce-models true)\n" + s.context() + "(check-sat)\n"
+	f, err := os.CreateTemp("", "verif-fb-*.smt2")
+	if err != nil {
+		return Unknown, nil
+	}
+	defer os.Remove(f.Name())
+	f.WriteString(script)
+	f.Close()
+	run := func(withModel bool) (string, error) {
+		path := f.Name()
+		if withModel && len(names) > 0 {
+			g, err := os.CreateTemp("", "verif-fb-*.smt2")
+			if err != nil {
+				return "", err
+			}
+			defer os.Remove(g.Name())
+			g.WriteString(script)
+			for i := 0; i < len(names); i += 200 {
+				j := i + 200
+				if j > len(names) {
+					j = len(names)
+				}
+				g.WriteString("(get-value (" + strings.Join(names[i:j], " ") + "))\n")
+			}
+			g.Close()
+			path = g.Name()
+		}
+		out, err := exec.Command("cvc5", "--incremental", "--solve-bv-as-int=sum", fmt.Sprintf("--tlimit-per=%d", timeoutMs), path).CombinedOutput()
+		return string(out), err
+	}
+	out, _ := run(false)
+	lines := strings.Fields(out)
+	last := ""
+	for _, l := range lines {
+		if l == "sat" || l == "unsat" || l == "unknown" {
+			last = l
+		}
+	}
+	if strings.Contains(out, "(error") || strings.Contains(out, "rror") {
+		return Unknown, nil
+	}
+	switch last {
+	case "unsat":
+		s.FallbackUnsat++
+		return Unsat, nil
+	case "sat":
+		out2, _ := run(true)
+		m := make(Model, len(names))
+		for _, mm := range valueRe.FindAllStringSubmatch(out2, -1) {
+			var v uint64
+			switch {
+			case mm[2] == "true":
+				v = 1
+			case mm[2] == "false":
+				v = 0
+			case strings.HasPrefix(mm[2], "#x"):
+				v, _ = strconv.ParseUint(mm[2][2:], 16, 64)
+			default:
+				v, _ = strconv.ParseUint(mm[2][2:], 2, 64)
+			}
+			m[mm[1]] = v
+		}
+		if len(m) != len(names) {
+			return Unknown, nil
+		}
+		return Sat, m
+	}
+	return Unknown, nil
+}
+
+// RestartWithContext replaces the solver process and replays the current path's context.
+func (s *Solver) RestartWithContext() error {
+	ctx := s.context()
+	if err := s.Restart(); err != nil {
+		return err
+	}
+	s.Gen-- // the path-level push is replayed, the path can go on
+	s.rec.Reset()
+	s.send(ctx)
+	return nil
+}
+
+// slowDir ($VERIF_SLOWDIR): directory receiving the SMT-LIB transcript of the
+// current path whenever a query takes longer than 2 s or answers unknown.
+var slowDir = os.Getenv("VERIF_SLOWDIR")
+var slowSeq int32
+
+// BeginPath resets the per-path transcript.
+func (s *Solver) BeginPath() { s.rec.Reset() }
+
+func (s *Solver) dumpSlow(d time.Duration, res SatResult) {
+	if slowDir == "" {
+		return
+	}
+	n := atomic.AddInt32(&slowSeq, 1)
+	if n > 40 {
+		return
+	}
+	os.WriteFile(fmt.Sprintf("%s/slow-%03d-%s-%dms.smt2", slowDir, n, res, d.Milliseconds()), []byte(s.rec.String()), 0o644)
 }
 
 func (s *Solver) Close() {
@@ -136,8 +281,14 @@ func (s *Solver) Check() SatResult {
 	t0 := time.Now()
 	s.send("(check-sat)\n")
 	lines := s.sync()
-	s.Time += time.Since(t0)
+	d := time.Since(t0)
+	s.Time += d
 	s.Queries++
+	defer func() {
+		if d > 2*time.Second {
+			s.dumpSlow(d, Unknown)
+		}
+	}()
 	res := Unknown
 	bad := false
 	for _, l := range lines {
